@@ -23,8 +23,9 @@ BOUNDS = {"quick": {"max_vars": 3, "hidden": [[3], [3, 2]]}, "thorough": {"max_v
 ITEM_LIMIT = {"quick": 900, "thorough": 3600}
 
 VARS = {"x": 2, "t": 1, "p": 1, "y": 2}
-ARCHS = ["FCN", "Harmonic_FCN", "Polynomial_FCN", "Polynomial_FCN_res", "QRES", "DeepRitzNet", "NormalizationLayer",
-         "Sequential(Norm,FCN)", "Parallel(FCN,QRES)-overlap", "Parallel(FCN,QRES)-disjoint", "Sequential(Parallel,FCN)"]
+ARCHS = ["FCN", "Harmonic_FCN", "Polynomial_FCN", "Polynomial_FCN_res", "Polynomial_FCN_res_narrow", "QRES", "DeepRitzNet", "NormalizationLayer",
+         "Sequential(Norm,FCN)", "Sequential(Norm,FCN)-reordered", "Sequential(FCN,FCN)-reordered", "Parallel(FCN,QRES)-overlap",
+         "Parallel(FCN,QRES)-disjoint", "Sequential(Parallel,FCN)"]
 
 
 def items(tier):
@@ -49,6 +50,16 @@ def build(arch, in_space, out_dim, hidden, seed):
         return M.Polynomial_FCN(isp, osp, polynomial_degree=2, hidden=hidden)
     if arch == "Polynomial_FCN_res":
         return M.Polynomial_FCN(isp, osp, polynomial_degree=2, hidden=[3, 3, 3], res_connection=True)
+    if arch == "Polynomial_FCN_res_narrow":
+        return M.Polynomial_FCN(isp, osp, polynomial_degree=2, hidden=[1, 1, 1], res_connection=True)     # width-1 residual layers
+    if arch == "Sequential(Norm,FCN)-reordered":
+        # the second stage lists the same variables in the opposite order
+        rsp = Space({v: VARS[v] for v in in_space[::-1]})
+        return M.Sequential(M.NormalizationLayer(domain_for(in_space)), M.FCN(rsp, osp, hidden=hidden))
+    if arch == "Sequential(FCN,FCN)-reordered":
+        m1 = M.FCN(isp, Space({"a": 2, "b": 1}), hidden=hidden)
+        m2 = M.FCN(Space({"b": 1, "a": 2}), osp, hidden=hidden)
+        return M.Sequential(m1, m2)
     if arch == "QRES":
         return M.QRES(isp, osp, hidden=hidden)
     if arch == "DeepRitzNet":
@@ -122,7 +133,7 @@ def run_item(item):
 
     hiddens = BOUNDS[tier]["hidden"]
     out_dims = (1, 2) if arch != "NormalizationLayer" else (0,)
-    for hidden in (hiddens if arch not in ("NormalizationLayer", "Polynomial_FCN_res") else hiddens[:1]):
+    for hidden in (hiddens if arch not in ("NormalizationLayer", "Polynomial_FCN_res", "Polynomial_FCN_res_narrow") else hiddens[:1]):
         for od in out_dims:
             st = "%s|%s|hidden=%s|out=%d" % (arch, in_space, hidden, od)
             res["states"].append(st)
@@ -210,7 +221,7 @@ def run_item(item):
                     ok = False
             # (3) compositions
             try:
-                if arch == "Sequential(Norm,FCN)" or arch == "Sequential(Parallel,FCN)":
+                if arch.startswith("Sequential"):
                     m1, m2 = model.models[0], model.models[1]
                     exp = m2(m1(pts(coords, order0))).as_tensor.detach()
                     if not torch.allclose(exp, ref, rtol=1e-6, atol=1e-6):
